@@ -279,6 +279,18 @@ func (in *interp) declareCheck(name string, env *Env) {
 	if !in.opt.Resolver {
 		return
 	}
+	// the carve-out concerns a closure that would read the name from an ENCLOSING scope: if no scope around
+	// env binds the name there is nothing for the two resolutions to disagree about
+	outer := false
+	for s := env.Parent; s != nil; s = s.Parent {
+		if _, ok := s.Vars[name]; ok {
+			outer = true
+			break
+		}
+	}
+	if !outer {
+		return
+	}
 	for _, c := range in.closures {
 		for s := c.Env; s != nil; s = s.Parent {
 			if s == env {
